@@ -97,7 +97,8 @@ def _points_part(run, rng, lines, meta, thorough):
             if np.abs(np.asarray(pts) @ S - np.rint(np.asarray(pts) @ S)).max() > 1e-9:
                 run.violation("get_commensurate_points", "not-commensurate", "S^T q is not integral (float)", info)
             if (np.asarray(pts) < -1e-9).any() or (np.asarray(pts) > 1 + 1e-9).any():
-                run.violation("get_commensurate_points", "outside-unit-cell", "point outside [0,1]", info)
+                # representation, not the property (points are only defined modulo reciprocal lattice vectors)
+                run.count("observation: get_commensurate_points returned a representative outside [0,1]")
         if len(ipts) != det:
             run.violation("get_commensurate_points_in_integers", "count", "%d points for |det S| = %d" % (len(ipts), det), info)
         if len({tuple(k) for k in ipts % det}) != len(ipts):
@@ -119,8 +120,9 @@ def _points_part(run, rng, lines, meta, thorough):
             partners += js
         allidx = sorted(list(ii) + list(ij) + partners)
         if not okc or allidx != list(range(n)):
-            run.violation("categorize_commensurate_points", "not-a-partition", "ii/ij/partners do not partition the points",
-                          dict(info, ii=list(map(int, ii)), ij=list(map(int, ij))))
+            # not part of the statement of C06: a statement about the model (categorize_partition) -> correspondence
+            run.broke("correspondence", "categorize_commensurate_points: ii/ij/partners do not partition the points (model theorem categorize_partition says they do)",
+                      dict(info, ii=list(map(int, ii)), ij=list(map(int, ij))))
         run.count("point-set oracle", section="oracle")
 
         # ---- correspondence
@@ -277,7 +279,8 @@ def _transform_part(run, rng, lines, meta, thorough):
         # API forward == DynamicalMatrix.run at the same point (ties run_qpoints to the modelled routine)
         dmobj.run(cp[-1])
         if not U.close(dms[-1], dmobj.dynamical_matrix):
-            run.violation("Phonopy.run_qpoints", "differs-from-DynamicalMatrix.run", "dynamical matrix of run_qpoints differs from DynamicalMatrix.run", info)
+            # ties the public path to the modelled routine (the agreement of access paths itself is C14's property)
+            run.broke("correspondence", "dynamical matrix of Phonopy.run_qpoints differs from DynamicalMatrix.run (the modelled routine)", info)
 
         # ---- implementation: inverse transform; correspondence
         tl = U.tables_line(*gen.compact_tables(ph))
@@ -332,7 +335,8 @@ def _transform_part(run, rng, lines, meta, thorough):
             d2f.dynamical_matrices = ph3.get_qpoints_dict()["dynamical_matrices"]
             d2f.run()
             if not U.close(d2f.force_constants, fc_used, TOL, scale):
-                run.violation("DynmatToForceConstants.run", "roundtrip-fc-nonsymmetric", "round trip of a periodic non-symmetric array is not its index-permutation symmetrisation (diff %.3g)" % U.maxdiff(d2f.force_constants, fc_used), info)
+                # outside the statement (it speaks of invariant force constants): a consequence of the model (Hermitisation)
+                run.broke("correspondence", "round trip of a periodic non-symmetric array is not its index-permutation symmetrisation (diff %.3g), as the model predicts" % U.maxdiff(d2f.force_constants, fc_used), info)
         run.count("round-trip oracle", section="oracle")
         _storage_variants(run, rng, lines, meta, cell, smat, pm, prim, scell, full, fc_used, cp, dms, backs, dict(info),
                           tl, N, ms, ph_lines, scale, exact32=(kind != "pair"))
@@ -452,6 +456,113 @@ def _storage_variants(run, rng, lines, meta, cell, smat, pm, prim, scell, full, 
         if not U.close(got, dms, 1e-6 if tag == "float32" else TOL, max(1.0, float(np.abs(dms).max()))):
             run.violation("Phonopy.masses", "storage-%s" % tag, "masses given as %s: dynamical matrices differ by %.3g" % (tag, U.maxdiff(got, dms)), dict(info, storage=tag))
     run.count("storage-variant oracle (arrays handed over in non-default layout)", n=ntest, section="oracle")
+
+
+def _prim_tables(prim):
+    """(p2s, s2pp, nsym_list, perms) of a Primitive that is not attached to a Phonopy object"""
+    from phonopy.harmonic.force_constants import get_nsym_list_and_s2pp
+
+    perms = prim.atomic_permutations
+    s2pp, nsym = get_nsym_list_and_s2pp(prim.s2p_map, prim.p2p_map, perms)
+    return np.array(prim.p2s_map, dtype=int), np.array(s2pp, dtype=int), np.array(nsym, dtype=int), np.array(perms, dtype=int)
+
+
+def _reordered_part(run, rng, lines, meta, thorough):
+    """Primitive cells whose atom order differs from the order of first appearance in the supercell
+    (public `positions_to_reorder` of Primitive / get_primitive): p2s_map is not ascending."""
+    from phonopy.harmonic import force_constants as F
+    from phonopy.harmonic.dynamical_matrix import DynamicalMatrix
+    from phonopy.harmonic.dynmat_to_fc import DynmatToForceConstants
+    from phonopy.structure.cells import Primitive, get_primitive, get_supercell
+
+    names = ["triclinic", "cscl", "zincblende_prim", "nacl_prim", "wurtzite", "hcp", "nacl_interleaved", "mono_P"]
+    nondiag = [np.array(m) for m in ([[2, 0, 0], [1, 2, 0], [0, 0, 1]], [[1, 1, 0], [0, 2, 0], [0, 0, 1]], [[2, 1, 0], [0, 1, 0], [-1, 0, 2]],
+                                      [[1, 0, 1], [0, 2, 0], [0, 0, 2]], [[2, 0, 0], [0, 1, 1], [0, -1, 1]])]
+    ncases = 16 if thorough else 4
+    made = attempts = 0
+    while made < ncases and attempts < 10 * ncases:
+        attempts += 1
+        name = names[(made + run.seed) % len(names)]
+        cell, cen = _cell(name)
+        smat = nondiag[rng.randrange(len(nondiag))] if rng.random() < 0.8 else np.diag([2, 1, 2])
+        pmu = np.eye(3)
+        if name == "nacl_interleaved":
+            pmu = np.array([[0, 0.5, 0.5], [0.5, 0, 0.5], [0.5, 0.5, 0]])
+            smat = np.diag([1, 1, 1]) if rng.random() < 0.5 else np.array([[1, 1, 0], [-1, 1, 0], [0, 0, 1]])
+        scell = get_supercell(cell, smat)
+        pmat = np.linalg.inv(smat) @ pmu
+        try:
+            p0 = get_primitive(scell, pmat)
+        except Exception:
+            run.count("constructor-rejected")
+            continue
+        npa, ns = len(p0), len(scell)
+        if npa < 2 or ns > (40 if thorough else 24) or ns // npa < 2:
+            continue
+        perm = list(range(npa))
+        while perm == sorted(perm):
+            rng.shuffle(perm)
+        if made % 2 == 0:
+            prim = get_primitive(scell, pmat, positions_to_reorder=p0.scaled_positions[perm])
+        else:
+            prim = Primitive(scell, pmat, positions_to_reorder=p0.scaled_positions[perm])
+        p2s = np.array(prim.p2s_map, dtype=int)
+        if (np.diff(p2s) > 0).all():
+            continue
+        variant = "omp" if made % 2 == 0 else "ser"
+        common.switch_variant(variant)
+        made += 1
+        svecs, multi = U.dense_svecs(prim)
+        s2pp = U.s2pp_map(prim)
+        s2p = np.array(prim.s2p_map, dtype=int)
+        N = ns // npa
+        cutoff = max(rng.choice([0.6, 0.9]) * gen.min_lattice_vector(scell.cell), 0.85 * min(np.linalg.norm(prim.cell, axis=1)))
+        phi = U.pair_fc(scell, cutoff)
+        if not U.close(F.compact_fc_to_full_fc(prim, F.full_fc_to_compact_fc(prim, phi)), phi, 1e-12):
+            run.count("generator: pair fc not periodic (case skipped)")
+            continue
+        scale = max(1.0, float(np.abs(phi).max()))
+        ms = U.mass_sqrt(prim.masses)
+        tl = U.tables_line(*_prim_tables(prim))
+        for full in (True, False):
+            fc_used = phi.copy() if full else F.full_fc_to_compact_fc(prim, phi)
+            info = dict(cell=name, smat=smat.tolist(), primitive_order=perm, p2s_map=p2s.tolist(), symbols=list(prim.symbols),
+                        layout="full" if full else "compact", n_patom=npa, n_satom=ns, variant=variant, how="get_primitive" if made % 2 == 1 else "Primitive")
+            run.case(("reordered", name, smat.tolist(), perm, full), nontrivial=True)
+            run.count("reordered primitive (p2s_map not ascending) %s" % name)
+            d2f = DynmatToForceConstants(prim, scell, is_full_fc=full)
+            cp = np.array(d2f.commensurate_points)
+            dmobj = DynamicalMatrix(scell, prim, fc_used.copy())
+            dms = []
+            for qv in cp:
+                dmobj.run(qv)
+                dms.append(np.array(dmobj.dynamical_matrix))
+            dms = np.array(dms)
+            # forward correspondence at one commensurate point
+            if full:
+                t_p2s, t_s2p, nr = p2s, s2p, ns
+            else:
+                t_p2s, t_s2p, nr = np.arange(npa), s2pp, npa
+            qv = cp[rng.randrange(len(cp))]
+            dmobj.run(qv)
+            impl = np.array(dmobj.dynamical_matrix)
+            lines.append("dynmat %d %d %d %s %s %s %s %s" % (npa, ns, nr, U.ints(t_p2s), U.ints(t_s2p), U.flat(fc_used), U.flat(ms), U.phases_line(qv, svecs, multi, +1)))
+            meta.append(("dynmat-C-reordered", dict(info, q=list(map(float, qv))), lambda line, impl=impl, npa=npa: _cmp(U.parse_complex(line, (3 * npa, 3 * npa)), impl)))
+            d2f.dynamical_matrices = dms
+            ph_lines = " ".join(U.phases_line(q_, svecs, multi, -1) for q_ in cp)
+            for lang in ("C", "Py"):
+                d2f.run(lang=lang)
+                back = np.array(d2f.force_constants)
+                if not U.close(back, fc_used, TOL, scale):
+                    run.violation("DynmatToForceConstants.run", "roundtrip-fc-reordered-primitive-%s-%s" % (lang, "full" if full else "compact"),
+                                  "primitive cell with p2s_map %s: fc -> D(q) at commensurate points -> fc differs from the input by %.3g" % (p2s.tolist(), U.maxdiff(back, fc_used)), info)
+                op = "d2ffull" if full else ("d2f" if lang == "C" else "d2fpy")
+                lines.append("%s %s %d %s %s %s" % (op, tl, N, U.flat(ms), U.flat_complex(dms), ph_lines))
+                meta.append(("inverse-%s-%s-reordered" % (lang, "full" if full else "compact"), info, lambda line, back=back: _cmp(U.parse_rats(line, back.shape), back)))
+            run.count("round-trip oracle (reordered primitive)", section="oracle")
+        if len(run.cov["samples"]) < 6:
+            run.sample(dict(kind="reordered-primitive", cell=name, smat=smat.tolist(), primitive_order=perm, p2s_map=p2s.tolist()), limit=6)
+    common.switch_variant("omp")
 
 
 def _cmp(model, impl):
@@ -600,6 +711,7 @@ def main(run):
     _points_part(run, rng, lines, meta, thorough)
     _transform_part(run, rng, lines, meta, thorough)
     _ph2ph_part(run, rng, thorough, lines, meta)
+    _reordered_part(run, rng, lines, meta, thorough)
     out = common.lean_run_driver("C06", lines)
     if len(out) != len(lines):
         run.broke("correspondence", "driver answered %d lines for %d requests" % (len(out), len(lines)))
@@ -610,6 +722,4 @@ def main(run):
         err = chk(line)
         if err is not None:
             run.broke("correspondence", "%s: %s" % (kind, err), info)
-            if kind in ("snf-certificate", "lattice-certificate"):
-                run.violation("SNF3x3 / Primitive.get_smallest_vectors", "tables-not-wellformed", "%s fails: %s" % (kind, err), info)
     run.cov["correspondence"]["compared"] = ncmp
